@@ -33,7 +33,7 @@ DECIDED = [
     'R4 the selector, for every table length and every query: at each return the value is c + q (b + a q) of one entry m '
     'with 0 <= m <= n-2 and (m = 0 or ml[m-1] <= q) and (m = n-2 or q <= ml[m+1]), i.e. the nodes of the entry (R2) '
     'include both neighbours of the query, and every index is in range - proved from branch conditions and inductive '
-    'loop invariants inferred Houdini-style, refutation by Fourier-Motzkin with case splits (engine E); an unproved '
+    'loop invariants inferred Houdini-style, refutation by Fourier-Motzkin with case splits (engine F); an unproved '
     'obligation becomes a violation only with a concrete counterexample from the finite input family (which also '
     'exposes a loop that never terminates)',
 ]
@@ -336,7 +336,7 @@ def check_curve(prog: Program, rep, rule: str) -> None:
 
 
 def check_search(prog: Program, rep, rule: str) -> None:
-    """The selector decided for every table length and every query (engine E): under the facts that hold at each
+    """The selector decided for every table length and every query (engine F): under the facts that hold at each
     return (branch conditions plus inductive loop invariants) the value is c + q (b + a q) of ONE entry m with
     0 <= m <= n-2 whose nodes m-1, m, m+1 (R2; nodes 0, 1 for the first entry) include both neighbours of the query:
     (m = 0 or ml[m-1] <= q) and (m = n-2 or q <= ml[m+1]).  Mach nodes strictly ascending, one entry per node."""
@@ -415,7 +415,7 @@ def check_search(prog: Program, rep, rule: str) -> None:
     try:
         res = L.analyse_search(sel.node, roles, goal, inputs(), oracle)
     except L.Unsupported as exc:
-        rep.undecided(rule, sel.where, 'selector', f'outside the fragment engine E reads: {exc}')
+        rep.undecided(rule, sel.where, 'selector', f'outside the fragment engine F reads: {exc}')
         return
     rep.extra['selector_proof'] = {
         'loops': res.loop_info, 'invariants': list(res.invariants.values()), 'prover_calls': res.prover_calls,
